@@ -269,6 +269,64 @@ func Run(r *mc.Run) {
 
 	addCutScenario(r)
 
+	// many components and very long digit runs: a subset of C01's families (the laws need triples, so fewer values)
+	var wide []V3
+	for i, t := range gen.ComponentLadders() {
+		// every 11th of the family, and all 9- and 16-component parts that differ from their base near the 8th / 16th component
+		c := strings.Count(t, ".")
+		if i%11 == 0 || ((c == 8 || c == 15 || c == 16) && i%3 == 0) {
+			wide = append(wide, V3{0, t, ""})
+			if i%4 == 0 {
+				wide = append(wide, V3{0, "1", strings.ReplaceAll(t, ".", "+")})
+			}
+		}
+	}
+	for i, t := range gen.LongDigitRuns() {
+		if len(t) < 2000 {
+			wide = append(wide, V3{0, t, ""})
+			if i%3 == 0 {
+				wide = append(wide, V3{0, "1", t})
+			}
+		}
+	}
+	r.Scenario("order-laws-many-components-and-long-digit-runs", map[string]interface{}{"values": len(wide), "shape": "9..40 components differing in one position; digit runs of 1..1000 significant digits, as upstream part and as revision"}, len(wide), func(i int, st *mc.Stats) bool {
+		for j := range wide {
+			for k := range wide {
+				st.Evals++
+				if i != j && j != k && i != k {
+					st.Nontrivial++
+				}
+				if v := checkTriple("order-laws-many-components-and-long-digit-runs", TripleIn{wide[i], wide[j], wide[k]}); v != nil {
+					st.Violate(v)
+					st.Class("law-broken:" + v.Clause)
+				}
+			}
+		}
+		st.States++
+		st.Transitions += int64(len(wide)) * int64(len(wide))
+		return true
+	})
+	// the sort adapter on slices of these values: windows of 24 consecutive values, as they are and reversed
+	nw := len(wide) / 24
+	r.Scenario("sort-many-components-and-long-digit-runs", map[string]interface{}{"slices": 2 * nw, "length": 24}, nw, func(w int, st *mc.Stats) bool {
+		sl := append([]V3{}, wide[w*24:w*24+24]...)
+		rv := make([]V3, len(sl))
+		for i := range sl {
+			rv[len(sl)-1-i] = sl[i]
+		}
+		for _, x := range [][]V3{sl, rv} {
+			st.Evals++
+			st.Nontrivial++
+			if v := checkSort("sort-many-components-and-long-digit-runs", SortIn{x}); v != nil {
+				st.Violate(v)
+				st.Class("broken:" + v.Clause)
+			} else {
+				st.Class("sorted")
+			}
+		}
+		return true
+	})
+
 	// comparisons and sorts made at the same time: every schedule of small thread programs (instrumented build)
 	sched.Explore(r, "concurrent-comparisons", c01.ConcurrentPrograms())
 
@@ -393,7 +451,7 @@ func Replay(scenario string, raw json.RawMessage) []*mc.Violation {
 		return sched.Replay(scenario, c01.ConcurrentPrograms(), raw)
 	}
 	var out []*mc.Violation
-	if scenario == "sort-all-sequences" || scenario == "sort-large-slices" {
+	if scenario == "sort-all-sequences" || scenario == "sort-large-slices" || scenario == "sort-many-components-and-long-digit-runs" {
 		var in SortIn
 		if mc.UnmarshalInput(raw, &in) == nil {
 			if v := checkSort(scenario, in); v != nil {
